@@ -23,11 +23,11 @@ func TestActiveChecksSharedHealthPort(t *testing.T) {
 		var peers []*upstream
 		for i := 0; i < npeers; i++ {
 			u := newUpstream(rt, true)
-			defer u.down()
+			defer u.release()
 			peers = append(peers, u)
 		}
 		hp := newUpstream(rt, rapid.Bool().Draw(rt, "healthPortStartsUp"))
-		defer hp.down()
+		defer hp.release()
 		_, portStr, _ := net.SplitHostPort(hp.addr)
 		port, _ := strconv.Atoi(portStr)
 		var ups []map[string]any
